@@ -31,6 +31,7 @@ const VOCAB: &[&str] = &[
     "a | b", "a || b", "a >> 1", "a > b", "a < b", "a = b", "a += 1", "return 1", "break", "x.await", "loop { }", "while c { }", "for i in x { }", "|v| v?", "|v| -> Option<u8> { v }",
     "to_string()", "unwrap()", "len", "0", "await", "iter().map(|v| v)", "r#type", "_", "self", "Self", "crate::f", "dyn T", "impl T", "fn(u8) -> u8", "&'a str", "[u8; 2]", "!",
     // raw punctuation and delimiters
+    "__g!(", "__g!(", ")", "__g!(<T as U>::f)", "__g!(|v| v)", "__g!(-1)", "__g!([1, 2])", "__g!(!)", "__g!({ x })", "__g!(a?)",
     "(", ")", "{", "}", "[", "]", "::", ";", "#", "$", "?", "@", "&", "|", ">", "<", "-", "!", ".", "^", "n", ":", "+", "*", "/", "%", "'a", "=>[", "] ", "<-", GLUE, GLUE,
 ];
 
@@ -133,7 +134,11 @@ fuzz_target!(|data: &[u8]| {
     let cfgs = cfg.to_string();
     match lab::expand(&text, &cfgs) {
         lab::Class::Panic(m) => finding("panic", &m, cfg, &text),
-        lab::Class::BadOutput(m) => finding("badoutput", &m, cfg, &text),
+        lab::Class::BadOutput(m) => {
+            if !m.starts_with("LEGACY-ASCRIPTION") {
+                finding("badoutput", &m, cfg, &text)
+            }
+        }
         lab::Class::Reject(m, _) => {
             if m.trim().is_empty() {
                 finding("emptymsg", "rejected with an empty message", cfg, &text)
